@@ -282,6 +282,16 @@ def build_source(s: dict, dtype, dt: float):
         if k == "uniform_plane":
             return fdtdx.UniformPlaneSource(amplitude=s.get("amplitude", 1.0), **kw, **common)
         return fdtdx.GaussianPlaneSource(radius=s["radius"], std=s.get("std", 1 / 3), **kw, **common)
+    if k == "tfsf_region":
+        kw = dict(direction=s["direction"], propagation_axis=int(s["axis"]), periodic_axes=tuple(s.get("periodic_axes", ())), amplitude=s.get("amplitude", 1.0))
+        if "e_pol" in s:
+            kw["fixed_E_polarization_vector"] = tuple(s["e_pol"])
+        return fdtdx.TFSFPlaneSourceRegion(**kw, **common)
+    if k == "mode":
+        kw = dict(direction=s["direction"], mode_index=int(s.get("mode_index", 0)))
+        if s.get("filter_pol"):
+            kw["filter_pol"] = s["filter_pol"]
+        return fdtdx.ModePlaneSource(**kw, **common)
     raise env.HarnessError(f"unknown source kind {k}")
 
 
